@@ -354,6 +354,19 @@ def sendingFileDataFsm (pkt : Option Pdu) : SM Bool := do
         else modify fun s => { s with step := .NOTICE_OF_COMPLETION }
       pure false
 
+/-- `_calculate_max_file_seg_len` (source.py:618-628): `none` is the `ValueError` of
+`get_max_file_seg_len_for_max_packet_len_and_pdu_cfg` -/
+def segLenOf (rc : RemoteCfg) (conf : Hdr) : Option Nat :=
+  match maxFileSegLen conf rc.maxPkt with
+  | none => none
+  | some derived =>
+    match rc.maxSeg with
+    | some m => if m < derived then some m else some derived
+    | none => some derived
+
+/-- `_get_next_transfer_seq_num` on the provider: the value handed out and the provider afterwards -/
+def provWrap (bits : Nat) : Nat := if bits = 8 then 256 else if bits = 16 then 65536 else 4294967296
+
 /-- `_transaction_start` (source.py:530-542) with `_prepare_file_params`, `_prepare_pdu_conf`,
 `_get_next_transfer_seq_num`, `_calculate_max_file_seg_len` -/
 def transactionStart (env : Env) : SM Unit := do
@@ -387,18 +400,14 @@ def transactionStart (env : Env) : SM Unit := do
       -- _get_next_transfer_seq_num
       let s ← get
       let next := s.prov.next
-      let wrap := if s.prov.bits = 8 then 256 else if s.prov.bits = 16 then 65536 else 4294967296
-      set { s with prov := { s.prov with next := (next + 1) % wrap } }
+      set { s with prov := { s.prov with next := (next + 1) % provWrap s.prov.bits } }
       if !(s.prov.bits = 8 || s.prov.bits = 16 || s.prov.bits = 32) then throw .valueError
       modP fun p => { p with conf := { p.conf with seq := ⟨next, s.prov.bits / 8⟩ } }
       -- _calculate_max_file_seg_len
       let p ← getP
-      match maxFileSegLen p.conf rc.maxPkt with
+      match segLenOf rc p.conf with
       | none => throw .valueError
-      | some derived =>
-        let seg := match rc.maxSeg with
-          | some m => if m < derived then m else derived
-          | none => derived
+      | some seg =>
         modP fun p => { p with segmentLen := seg }
         let tid : Tid := ⟨env.cfg.entityId, (← getP).conf.seq⟩
         modP fun p => { p with tid := some tid }
